@@ -1,7 +1,7 @@
 (** C07 — backend concurrency contract of the File interface (path-tree locking).
     Only statements, each closed by [exact] of a lemma of coq/Locks, with Print Assumptions. *)
 From Coq Require Import String List Bool.
-From P9V Require Import Locks.Sym Locks.Locks Locks.LockProofs gen.LockGen Locks.Tables Locks.TableProofs Locks.OpenOnce Locks.NodeId.
+From P9V Require Import Locks.Sym Locks.Locks Locks.LockProofs gen.LockGen Locks.Tables Locks.TableProofs Locks.Runs Locks.OpenOnce Locks.NodeId.
 Import ListNotations.
 
 (** Generic mutual exclusion: any number of threads, every interleaving, any plans that keep
@@ -74,6 +74,17 @@ Theorem C07_contract_sites : forall (ths : list (site * (snode -> node))),
     In c1 (inside ti) -> In c2 (inside tj) -> cprovides c1 -> cprovides c2 -> conflicts c1 c2 -> False.
 Proof. exact sites_contract. Qed.
 Print Assumptions C07_contract_sites.
+(** ... and for RUNS: every goroutine runs any finite succession of call-site fragments, each under its own
+    valuation (a connection serving request after request); the guard discipline is closed under
+    concatenation of plans that end with nothing held and no call in progress (Locks/Runs.v) *)
+Theorem C07_contract_runs : forall (ths : list (list (site * (snode -> node)))),
+  (forall run st rho, In run ths -> In (st, rho) run ->
+     In st sites /\ respects rho (full_path st) /\ exists c, site_call rho st = Some c) ->
+  forall s, reachable clock clock_eqb ccall ccall_eqb (map run_thread ths) s ->
+  forall i j ti tj c1 c2, i <> j -> nth_error s i = Some ti -> nth_error s j = Some tj ->
+    In c1 (inside ti) -> In c2 (inside tj) -> cprovides c1 -> cprovides c2 -> conflicts c1 c2 -> False.
+Proof. exact runs_contract. Qed.
+Print Assumptions C07_contract_runs.
 
 (** Open: every File.Open site holds the fidRef's openMu, and [opened] is written under openMu and the node lock *)
 Theorem C07_open_sites_ok : forall st, In st sites -> open_ok st = true.
